@@ -82,7 +82,7 @@ let aop_of = function
 
 let rec opd_of = function
   | L [Atom "i"; Atom k] -> OVar (nat_of_int (int_of_string k))
-  | L [Atom "n"; Atom z] -> OLit (z_of_string z)
+  | L [Atom "n"; Atom z] -> OLit (false, z_of_string z)
   | L [Atom "ar"; Atom op; x; y] -> OArith (aop_of op, opd_of x, opd_of y)
   | L [Atom "un"; Atom "neg"; x] -> OUn (UNeg, opd_of x)
   | L [Atom "un"; Atom "pos"; x] -> OUn (UPos, opd_of x)
